@@ -157,7 +157,7 @@ impl Tables {
                 }
             }
             Space::Header => self.pathcases.len() as u64 * 256,
-            Space::L4 => 64 * 4 * 16 * 3,
+            Space::L4 => 16 * 4 * 16 * 3,
             Space::Seq => self.reps.len() as u64,
         }
     }
@@ -216,7 +216,7 @@ impl Tables {
             };
             for t in &truncs {
                 env.sub = (*t as u64) << 8 | fi as u64;
-                let mode = if *t >= n { Mode { sweep: true, full: true, mut1: Mut1::Light, seq: 0, boxed: true } } else { r::CTOR_ONLY };
+                let mode = if *t >= n { Mode { sweep: true, full: true, mut1: Mut1::Light, seq: 0, boxed: true, deep: all_prefixes } } else { r::CTOR_ONLY };
                 exercise::<r::KStd>(env, &full[..*t], mode);
                 env.acc.count("buffers", 1);
             }
@@ -228,7 +228,7 @@ impl Tables {
                 let b = gen_std(seg, ci, ch, Fill::Pattern);
                 env.sub = 1 << 40 | (ci as u64) << 8 | ch as u64;
                 let mut1 = if all_prefixes || ch == 0 || ch == 63 || ch as usize + 1 == total { Mut1::Light } else { Mut1::None };
-                exercise::<r::KStd>(env, &b, Mode { sweep: true, full: false, mut1, seq: 0, boxed: false });
+                exercise::<r::KStd>(env, &b, Mode { sweep: true, full: false, mut1, seq: 0, boxed: false, deep: false });
                 env.acc.count("buffers", 1);
             }
         }
@@ -240,6 +240,12 @@ impl Tables {
         let dtl = ((case / 16) % 16) as u8;
         let stl = (case % 16) as u8;
         let p0 = 28 + host_len(dtl) + host_len(stl);
+        // a triple whose path cannot fit any 1020-byte header is rejected whatever the address
+        // types are: cross it with the 16 address LENGTH pairs only
+        if pt == 1 && 36 + std_size(seg) > 1032 && (dtl >> 2 != 0 || stl >> 2 != 0) {
+            env.acc.count("header_cases_not_crossed_with_address_type_bits", 1);
+            return;
+        }
         let l4: Vec<u8> = {
             let mut v = vec![0x9c, 0x41, 0x00, 0x35, 0x00, 12, 0x12, 0x34];
             v.extend_from_slice(&[0xde, 0xad, 0xbe, 0xef]);
@@ -290,8 +296,9 @@ impl Tables {
                     env.sub = (vi as u64) << 32 | (t as u64) << 8 | fi as u64;
                     let b = &full[..t];
                     let is_full = t == full.len();
-                    let hm = Mode { sweep: true, full: true, mut1: if is_full { Mut1::Light } else { Mut1::None }, seq: 0, boxed: true };
-                    let pm = Mode { sweep: true, full: false, mut1: Mut1::None, seq: 0, boxed: true };
+                    let deep = (dtl >> 2 == 0 && stl >> 2 == 0) || path.len() <= 128;
+                    let hm = Mode { sweep: true, full: true, mut1: if is_full { Mut1::Light } else { Mut1::None }, seq: 0, boxed: true, deep };
+                    let pm = Mode { sweep: true, full: false, mut1: Mut1::None, seq: 0, boxed: true, deep: false };
                     exercise::<r::KHdr>(env, b, hm);
                     exercise::<r::KRaw>(env, b, pm);
                     exercise::<r::KUdpPkt>(env, b, pm);
@@ -306,9 +313,10 @@ impl Tables {
     fn case_l4(&self, env: &mut Env, case: u64) {
         let (hs, nx, kind, body) = l4_decode(case);
         let next = [17u8, 202, 0, 255][nx];
-        let (pt, path_seg): (u8, Option<[u8; 3]>) = [(0, None), (1, Some([2, 0, 0])), (2, None), (3, None)][hs / 16];
-        let dtl = ((hs % 16) / 4) as u8; // DT = 0, DL varies
-        let stl = (hs % 4) as u8;
+        let (pt, path_seg): (u8, Option<[u8; 3]>) = [(0, None), (1, Some([2, 0, 0])), (2, None), (3, None)][hs / 4];
+        // host address lengths 4/4, 8/16, 12/4, 16/12 (DT = ST = 0)
+        let dtl = (hs % 4) as u8;
+        let stl = [0u8, 3, 0, 2][hs % 4];
         for (fi, f) in FILLS.iter().enumerate() {
             let path = match (pt, path_seg) {
                 (1, Some(s)) => gen_std(s, 0, 1, *f),
@@ -337,11 +345,16 @@ impl Tables {
                 full.extend_from_slice(&l4);
                 full.push(0x77); // a byte behind the packet
                 let mut truncs = vec![];
-                pm1(&mut truncs, natural);
-                pm1(&mut truncs, natural + 4);
-                pm1(&mut truncs, natural + 8);
-                if kind >= 5 {
-                    pm1(&mut truncs, natural + refl4::scmp_fixed_len(l4[0]));
+                if pi == 3 {
+                    pm1(&mut truncs, natural);
+                    pm1(&mut truncs, natural + 4);
+                    pm1(&mut truncs, natural + 8);
+                    if kind >= 5 {
+                        pm1(&mut truncs, natural + refl4::scmp_fixed_len(l4[0]));
+                    }
+                } else {
+                    truncs.push(natural + *pl.min(&real));
+                    truncs.push(natural + 8);
                 }
                 pm1(&mut truncs, natural + real);
                 truncs.sort();
@@ -350,7 +363,7 @@ impl Tables {
                 for t in truncs {
                     env.sub = (pi as u64) << 32 | (t as u64) << 8 | fi as u64;
                     let b = &full[..t];
-                    let m = Mode { sweep: true, full: true, mut1: Mut1::Light, seq: 0, boxed: true };
+                    let m = Mode { sweep: true, full: true, mut1: if t >= natural + real { Mut1::Light } else { Mut1::None }, seq: 0, boxed: true, deep: body == 0 };
                     exercise::<r::KRaw>(env, b, m);
                     exercise::<r::KUdpPkt>(env, b, m);
                     exercise::<r::KScmpPkt>(env, b, m);
@@ -364,7 +377,7 @@ impl Tables {
                 for t in 0..=with_tail.len() {
                     env.sub = 1 << 40 | (t as u64) << 8 | fi as u64;
                     let b = &with_tail[..t];
-                    let m = Mode { sweep: true, full: true, mut1: Mut1::Full, seq: 0, boxed: true };
+                    let m = Mode { sweep: true, full: true, mut1: Mut1::Full, seq: 0, boxed: true, deep: true };
                     exercise::<r::KUdp>(env, b, m);
                     exercise::<r::KScmp>(env, b, m);
                     exercise::<r::KMsgDu>(env, b, m);
@@ -390,7 +403,7 @@ impl Tables {
     fn case_seq(&self, env: &mut Env, case: u64) {
         let rep = &self.reps[case as usize];
         env.sub = 0;
-        let m = Mode { sweep: true, full: true, mut1: Mut1::Full, seq: if self.thorough { 3 } else { 2 }, boxed: true };
+        let m = Mode { sweep: true, full: true, mut1: Mut1::Full, seq: if self.thorough { 3 } else { 2 }, boxed: true, deep: true };
         // depth 3 only where the mutator list is short enough to finish
         let m2 = Mode { seq: 2, ..m };
         match rep.kind {
